@@ -126,11 +126,13 @@ def run_one(args):
         from .core import EngineLimit
         mod = load_contracts(pid)
         c = mod.CONTRACTS[idx]
+        from . import engine as _eng
+        _eng.PREFER = getattr(c, 'prefer', None)
         out['key'] = c.oname
         out['name'] = getattr(c, 'label', None) or c.key
         repo = Repo(REPO)
         ex = Engine(repo, registry=getattr(mod, 'REGISTRY', {}),
-                    class_specs=getattr(mod, 'CLASS_SPECS', {}),
+                    class_specs=getattr(c, 'home_class_specs', None) or getattr(mod, 'CLASS_SPECS', {}),
                     exc_fields=getattr(mod, 'EXC_FIELDS', None))
         try:
             fi = repo.find_function(c.key)
